@@ -1,6 +1,132 @@
-(* C06 (under construction) *)
-From Coq Require Import List Arith.
-From YP Require Import Base.Str Lang.Ast Comp.IR Comp.CompileBody Comp.CompileTotal.
+(* C06 - disjunction, if-then-else and negation follow standard semantics.
+   Only statements; proofs are `exact <lemma>`.  (The precedence / associativity part of the property is
+   a statement about the parser: Properties/C10.v, Lang/Parser.v.) *)
+From Coq Require Import String.
+From Coq Require Import List Arith ZArith.
+Import ListNotations.
+From YP Require Import Base.Str Term.Term Unify.Unify Lang.Ast Comp.IR Comp.CompileBody Comp.CompileClause Comp.CompileTotal
+  Sem.Res Sem.RefSem Sem.IRSem Sem.ControlCorrect Sem.Machine Sem.ClauseSem Sem.ProgramCorrect Sem.SpecLemmas.
+
+(* For EVERY body expression tree over {call, true, fail, !, ',', ';', '->', '\+'} (a cut inside a condition or under \+ is local to it), every interpretation of the leaves (all solution counts), every
+   continuation (the theorem is about whole bodies, and ',' is one of the constructors) and every value
+   of the label counter: the code emitted by the rewriting compiler (distribution of the continuation
+   over ';', breakable blocks with cutIfN labels, the doBreak protocol, `if doBreak: break` after every
+   loop) yields exactly the answers of the reference semantics, in order, ending the same way. *)
+Theorem C06_control_code_correct : forall (S : Type) (I : str -> list sterm -> S -> list S * bool)
+  (J : expr -> S -> list S * bool) (assign : str -> expr -> S -> S),
+  (forall f args s, J (query_expr f args) s = I f args s) ->
+  forall n b cnt code cnt',
+  comp n b cnt = Some (code, cnt') -> nomark b = true ->
+  forall s, (let '(ys, k) := run_function J assign code s in (ys, fin_of_compl k)) = sem I b s.
+Proof. exact control_correct_function. Qed.
+Print Assumptions C06_control_code_correct.
+
+(* the flag protocol is left clean: doBreak is false again whenever the body ends normally, and the
+   code contains no assignment *)
+Theorem C06_control_correct_flags : forall (S : Type) (I : str -> list sterm -> S -> list S * bool)
+  (J : expr -> S -> list S * bool) (assign : str -> expr -> S -> S),
+  (forall f args s, J (query_expr f args) s = I f args s) ->
+  forall n b cnt code cnt',
+  comp n b cnt = Some (code,cnt') -> nomark b = true ->
+  noasg code = true /\
+  forall s f, doBreak f = false ->
+    exists f', exec_list J assign code s f = (fst (sem I b s), cof (snd (sem I b s)), f') /\
+               (snd (sem I b s) = FNorm -> doBreak f' = false) /\
+               (forall l, snd (sem I b s) <> FExit l).
+Proof. exact control_correct. Qed.
+Print Assumptions C06_control_correct_flags.
+
 Theorem C06_compile_body_total : forall b cnt, exists code cnt', comp (fuel_body b) b cnt = Some (code, cnt').
 Proof. exact comp_total_exists. Qed.
 Print Assumptions C06_compile_body_total.
+
+Theorem C06_compiled_program_computes_reference : forall n p ir,
+  compile_program p = Some ir -> good_program p ->
+  forall name args s, query n ir name args s = solveA n p name args s.
+Proof. exact machine_computes_clause_semantics. Qed.
+Print Assumptions C06_compiled_program_computes_reference.
+
+(* the reference semantics is the standard one *)
+Theorem C06_or_spec : forall (S : Type) (I : str -> list sterm -> S -> list S * bool) A B s, isif A = false ->
+  sem I (BOr A B) s = match sem I A s with (xs, FNorm) => let '(ys, g) := sem I B s in (xs ++ ys, g) | r => r end.
+Proof. exact or_spec. Qed.
+Print Assumptions C06_or_spec.
+
+Theorem C06_ite_spec : forall (S : Type) (I : str -> list sterm -> S -> list S * bool) C T E s,
+  sem I (BOr (BIf C T) E) s =
+  match opaque (sem I C s) with
+  | (x :: _, _) => sem I T x
+  | ([], FNorm) => sem I E s
+  | ([], f) => ([], f)
+  end.
+Proof. exact ite_spec. Qed.
+Print Assumptions C06_ite_spec.
+
+Theorem C06_if_no_else_spec : forall (S : Type) (I : str -> list sterm -> S -> list S * bool) C T s,
+  sem I (BIf C T) s = sem I (BOr (BIf C T) BFail) s.
+Proof. exact if_no_else_spec. Qed.
+Print Assumptions C06_if_no_else_spec.
+
+Theorem C06_not_spec : forall (S : Type) (I : str -> list sterm -> S -> list S * bool) G s,
+  sem I (BNot G) s = match opaque (sem I G s) with
+                     | (_ :: _, _) => ([], FNorm)
+                     | ([], FNorm) => ([s], FNorm)
+                     | ([], f) => ([], f)
+                     end.
+Proof. exact not_spec. Qed.
+Print Assumptions C06_not_spec.
+
+Theorem C06_neg_binds_nothing : forall (S : Type) (I : str -> list sterm -> S -> list S * bool) G s x,
+  In x (fst (sem I (BNot G) s)) -> x = s.
+Proof. exact neg_binds_nothing. Qed.
+Print Assumptions C06_neg_binds_nothing.
+
+Theorem C06_and_spec : forall (S : Type) (I : str -> list sterm -> S -> list S * bool) A B s,
+  sem I (BAnd A B) s = let '(xs, e) := sem I A s in seqr (sem I B) xs e.
+Proof. exact and_spec. Qed.
+Print Assumptions C06_and_spec.
+
+(* A cut inside a condition or under \+ is local to it (the former finding KF-C06-1, repaired in the
+   compiler: such a condition gets a block of its own that the cut leaves).  q :- \+ (!, fail).  succeeds once;
+   r(X) :- ( (m(X), !, n(X)) -> Y = then ; Y = else ) commits to the first m and takes the else branch. *)
+Local Open Scope string_scope.
+Definition opaque_cut_prog : program :=
+  [ {| c_name := d "q"; c_args := []; c_body := BNot (BAnd BCut BFail) |};
+    {| c_name := d "r"; c_args := [SVar (d "X"); SVar (d "Y")];
+       c_body := BOr (BIf (BAnd (BCall (d "m") [SVar (d "X")]) (BAnd BCut (BCall (d "n") [SVar (d "X")])))
+                          (BCall (d "=") [SVar (d "Y"); SAtom (d "then")]))
+                     (BCall (d "=") [SVar (d "Y"); SAtom (d "else")]) |};
+    {| c_name := d "m"; c_args := [SAtom (d "a")]; c_body := BTrue |};
+    {| c_name := d "m"; c_args := [SAtom (d "b")]; c_body := BTrue |};
+    {| c_name := d "n"; c_args := [SAtom (d "b")]; c_body := BTrue |} ].
+Example C06_cut_in_condition_is_local :
+  good_program opaque_cut_prog /\
+  exists ir, compile_program opaque_cut_prog = Some ir /\
+  length (fst (query 5 ir (d "q") [] {| sto := []; nxt := 0 |})) = 1 /\
+  map (fun x => (den (sto x) (TVar 0), den (sto x) (TVar 1)))
+      (fst (query 5 ir (d "r") [TVar 0; TVar 1] {| sto := []; nxt := 2 |})) = [(TVar 0, TAtom (d "else"))].
+Proof.
+  split.
+  - repeat constructor.
+  - eexists. split; [vm_compute; reflexivity|]. vm_compute. split; reflexivity.
+Qed.
+
+(* non-vacuity:  p(X,R) :- ( q(X) -> R = then ; R = else ), \+ X = b.   q(a). q(b). *)
+Definition ite_prog : program :=
+  [ {| c_name := d "p"; c_args := [SVar (d "X"); SVar (d "R")];
+       c_body := BAnd (BOr (BIf (BCall (d "q") [SVar (d "X")]) (BCall (d "=") [SVar (d "R"); SAtom (d "then")]))
+                           (BCall (d "=") [SVar (d "R"); SAtom (d "else")]))
+                      (BNot (BCall (d "=") [SVar (d "X"); SAtom (d "b")])) |};
+    {| c_name := d "q"; c_args := [SAtom (d "a")]; c_body := BTrue |};
+    {| c_name := d "q"; c_args := [SAtom (d "b")]; c_body := BTrue |} ].
+Example C06_nonvacuous :
+  good_program ite_prog /\
+  exists ir, compile_program ite_prog = Some ir /\
+  map (fun x => (den (sto x) (TVar 0), den (sto x) (TVar 1)))
+      (fst (query 10 ir (d "p") [TVar 0; TVar 1] {| sto := []; nxt := 2 |}))
+  = [(TAtom (d "a"), TAtom (d "then"))].
+Proof.
+  split.
+  - repeat constructor.
+  - eexists. split; [vm_compute; reflexivity|]. vm_compute. reflexivity.
+Qed.
